@@ -1117,3 +1117,105 @@ Proof.
   destruct (r_block_connected le sc t2 (index_block hash txs) (gk_height t + 1)) as [[] t3|] eqn:E3; cbn [bind wrap]; intros H; inversion H.
   subst. exists t1, t2. repeat split; assumption.
 Qed.
+
+Lemma trk_app_uuid k a : trk_uuid k = app_uuid a -> t_loc k = a_loc a /\ t_user k = a_user a.
+Proof. unfold trk_uuid, app_uuid. intros H. inversion H. auto. Qed.
+
+(* Block connection: for every user that still has a row afterwards, the balance moves by exactly the
+   rows that disappear without completing (forfeited); the rows that disappear because their tracker
+   completes are refunded slot for slot. *)
+Theorem connect_bal le t hash txs sc t' :
+  Inv t -> connect_side t txs -> step le t (OConnect hash txs) sc = (t', OBlockRes) ->
+  forall v, has_row t' v = true ->
+    has_row t v = true /\
+    avail t' v = avail t v + refunded_connect t txs t' v /\
+    held_t t' v + refunded_connect t txs t' v + forfeited_connect t txs t' v = held_t t v /\
+    bal t' v + forfeited_connect t txs t' v = bal t v.
+Proof.
+  intros HI [S1 [S2 S3]] Hstep v Hrow.
+  destruct (connect_phases le t hash txs sc t' Hstep) as [t1 [t2 [E1 [E2 E3]]]].
+  assert (HI0 : Inv (fresh t)) by (eapply inv_frame; [|exact HI]; repeat split).
+  pose proof (gk_block_connected_pres Inv (sa_block Inv inv_stable) (fresh t) (gk_height t + 1) HI0) as HI1.
+  rewrite E1 in HI1. cbn [pres] in HI1.
+  pose proof (w_block_connected_pres Inv inv_wr sc t1 (cache_block hash txs) (gk_height t + 1) HI1) as HI2.
+  rewrite E2 in HI2. cbn [pres] in HI2.
+  apply gk_block_spec in E1. destruct E1 as [outd [G1 [G2 [G3 [G4 [G5 G6]]]]]].
+  change (db_users (fresh t)) with (db_users t) in G1. change (db_apps (fresh t)) with (db_apps t) in G2.
+  change (db_trks (fresh t)) with (db_trks t) in G3. change (r_index (fresh t)) with (r_index t) in G4.
+  change (reorged (fresh t)) with (reorged t) in G5.
+  assert (G6' : memo_ok (car_memo t1)).
+  { rewrite G6. cbn [car_memo fresh set_rpc_log]. exact S3. }
+  apply w_block_spec in E2. destruct E2 as [tb [invalid [HB [Hinv [W1 [W2 [W3 [W4 W5]]]]]]]].
+  destruct HB as [B1 B2 B3 B4 [news [B5 B6]]]. apply ua_fields in B1. destruct B1 as [_ [B1u B1a]].
+  apply (r_block_spec le sc t2 hash txs _ t' HI2) in E3. destruct E3 as [completed [rej [C1 [C2 [C3 [R1 R2]]]]]].
+  destruct (R2 v) as [Rm Ra]. clear R2.
+  (* v survives the purge *)
+  assert (Hu2 : db_users t2 = filter (fun r => negb (memN (fst r) outd)) (db_users t)) by congruence.
+  assert (Hget : aget (db_users t2) v = if negb (memN v outd) then aget (db_users t) v else None).
+  { rewrite Hu2. apply (aget_filter_key (fun k => negb (memN k outd))). }
+  unfold has_row in Hrow. rewrite Rm in Hrow.
+  assert (Hout : memN v outd = false).
+  { destruct (memN v outd) eqn:E; [|reflexivity]. unfold amem in Hrow. rewrite Hget in Hrow. cbn in Hrow. discriminate. }
+  rewrite Hout in Hget. cbn [negb] in Hget.
+  assert (Hav2 : avail t2 v = avail t v) by (unfold avail; rewrite Hget; reflexivity).
+  (* the appointments table afterwards *)
+  set (keep := fun a => negb (memN (a_user a) outd) && (negb (mem_uuid (app_uuid a) invalid)
+                        && (negb (mem_uuid (app_uuid a) completed) && negb (mem_uuid (app_uuid a) rej)))).
+  assert (HA3 : db_apps t' = filter keep (db_apps t)).
+  { rewrite R1, W1, B1a, G2. unfold del. rewrite !filter_filter. reflexivity. }
+  assert (Pg : forall a, In a (db_apps t) -> gone (db_apps t') a = negb (keep a)).
+  { intros a Ha. rewrite HA3. apply gone_filter; [apply inv_apps_nodup; exact HI|exact Ha]. }
+  (* a row of v is refunded iff its tracker completes *)
+  assert (P2 : forall a, In a (db_apps t) -> a_user a = v ->
+                         negb (mem_uuid (app_uuid a) invalid) && mem_uuid (app_uuid a) completed = completing_row t txs a).
+  { intros a Ha Hav. destruct (completing_row t txs a) eqn:Ecr.
+    - unfold completing_row in Ecr. destruct (find_trk (db_trks t) (app_uuid a)) as [k|] eqn:Ek; [|discriminate].
+      apply find_trk_Some in Ek. destruct Ek as [Hk Hku]. destruct (S1 k Hk Ecr) as [Sr Sl].
+      apply completing_iff in Ecr. destruct Ecr as [Hc [Hh Hp]].
+      destruct (trk_app_uuid k a Hku) as [Hkl Hkuu].
+      assert (HkI : mem_uuid (app_uuid a) invalid = false).
+      { destruct (mem_uuid (app_uuid a) invalid) eqn:E; [|reflexivity]. apply mem_uuid_In in E. apply Hinv in E.
+        cbn [fst app_uuid] in E. congruence. }
+      rewrite HkI. cbn [negb andb]. apply mem_uuid_In. rewrite <- Hku. apply C3; try assumption.
+      + rewrite W2. apply filter_In. split.
+        * rewrite B5. apply in_or_app. left. rewrite G3. apply filter_In. split; [exact Hk|].
+          rewrite Hkuu, Hav, Hout. reflexivity.
+        * rewrite Hku, HkI. reflexivity.
+      + rewrite W4, B3, G5. exact Sr.
+    - destruct (mem_uuid (app_uuid a) invalid) eqn:EI; cbn [negb andb]; [reflexivity|].
+      destruct (mem_uuid (app_uuid a) completed) eqn:EC; [|reflexivity]. exfalso.
+      apply mem_uuid_In in EC. destruct (C2 _ EC) as [k [Hk2 [Hku [Hp [Hc Hh]]]]].
+      rewrite W2 in Hk2. apply filter_In in Hk2. destruct Hk2 as [Hkb _]. rewrite B5 in Hkb.
+      apply in_app_or in Hkb. destruct Hkb as [Hk1|Hkn].
+      + rewrite G3 in Hk1. apply filter_In in Hk1. destruct Hk1 as [Hk0 _].
+        assert (Hf : find_trk (db_trks t) (app_uuid a) = Some k).
+        { rewrite <- Hku. apply find_trk_unique; [apply inv_trks_nodup; exact HI|exact Hk0]. }
+        unfold completing_row in Ecr. rewrite Hf in Ecr.
+        assert (Hcp : completing (gk_height t + 1) txs k = true) by (apply completing_iff; auto). congruence.
+      + destruct (B6 k Hkn) as [Hnone [a' [Ha'1 [Ha'u [Ha'l [Ha'd Ha'c]]]]]].
+        rewrite G2 in Ha'1. apply filter_In in Ha'1. destruct Ha'1 as [Ha'0 Ha'o].
+        assert (Hnone0 : find_trk (db_trks t) (app_uuid a') = None).
+        { destruct (find_trk (db_trks t) (app_uuid a')) as [k0|] eqn:E0; [|reflexivity]. exfalso.
+          apply find_trk_Some in E0. destruct E0 as [Hk0 Hk0u]. apply (find_trk_None _ _ Hnone).
+          rewrite <- Ha'u, <- Hk0u. apply in_map. rewrite G3. apply filter_In. split; [exact Hk0|].
+          destruct (trk_app_uuid k0 a' Hk0u) as [_ Hk0uu]. rewrite Hk0uu. exact Ha'o. }
+        pose proof (S2 a' (t_penalty k) Ha'0 Ha'l Hnone0 Ha'd) as Hidx.
+        apply (Ha'c Hc G6'). rewrite G4. exact Hidx. }
+  (* the refund is the slots of the completing rows that disappear *)
+  assert (Href : ssum (filter (fun a => ofu v a && mem_uuid (app_uuid a) completed) (db_apps t2)) = refunded_connect t txs t' v).
+  { rewrite W1, B1a, G2. unfold del, refunded_connect. rewrite !filter_filter. f_equal. apply filter_ext_in'. intros a Ha.
+    rewrite (Pg a Ha). unfold keep. destruct (ofu v a) eqn:Eo.
+    - apply ofu_true in Eo. pose proof (P2 a Ha Eo) as Hp2. rewrite Eo, Hout.
+      destruct (mem_uuid (app_uuid a) invalid), (mem_uuid (app_uuid a) completed), (mem_uuid (app_uuid a) rej),
+        (completing_row t txs a); cbn [negb andb] in *; congruence.
+    - cbn [andb]. rewrite !andb_false_r. reflexivity. }
+  (* the rows that stay *)
+  assert (Hheld' : held_t t' v = ssum (filter (fun a => ofu v a && negb (gone (db_apps t') a)) (db_apps t))).
+  { transitivity (ssum (filter (ofu v) (filter keep (db_apps t)))); [unfold held_t; rewrite HA3; reflexivity|].
+    rewrite filter_filter. f_equal. apply filter_ext_in'. intros a Ha. rewrite (Pg a Ha), negb_involutive. apply andb_comm. }
+  pose proof (ssum_split3 (ofu v) (gone (db_apps t')) (completing_row t txs) (db_apps t)) as Hsplit.
+  fold (held_t t v) in Hsplit. fold (refunded_connect t txs t' v) in Hsplit. fold (forfeited_connect t txs t' v) in Hsplit.
+  rewrite <- Hheld' in Hsplit. rewrite Href, Hav2 in Ra.
+  split; [unfold has_row, amem in *; rewrite <- Hget; exact Hrow|].
+  split; [exact Ra|]. split; [lia|]. unfold bal. lia.
+Qed.
